@@ -391,6 +391,12 @@ func (r *Run) codeOnPath(path *Path, i int, ml *MsgLit) *types.Const {
 		return c
 	}
 	if id, ok := ast.Unparen(cx).(*ast.Ident); ok {
+		// the code is a parameter of a looked-into helper (sendError(respond, id, code)): the caller's argument
+		if bfn, bx := resolveBound(ml.Fn, id); bfn != ml.Fn || bx != ast.Expr(id) {
+			if c := r.constThroughLocals(bfn, path, bx); c != nil {
+				return c
+			}
+		}
 		obj := ml.Fn.Info().Uses[id]
 		if rhs, idx, ok := lastDefOnPath(ml.Fn, path, i, obj); ok && rhs != nil {
 			if c := constOf(ml.Fn.Info(), rhs); c != nil {
